@@ -593,6 +593,13 @@ func main() {
 	k := 0
 	for i := 0; i < *n; i++ {
 		s := seed*100003 + int64(i)
+		if *only == "pool" {
+			for j := 0; j < 4; j++ {
+				k++
+				emit(poolHist(k, *threads, *nops+j, s*13+int64(j)))
+			}
+			continue
+		}
 		if *only == "store" {
 			k++
 			emit(storeHist(k, *threads, *nops, s, "topics"))
